@@ -215,6 +215,11 @@ Hypothesis bech_total : forall m hrp data, syms_ok data -> exists s, bech_enc m 
 (* DecodeGeneric after Encode / EncodeM (within the 90-character limit) reports hrp, data and the constant used *)
 Hypothesis bech_dec_enc : forall m hrp data s, In hrp all_hrps -> (length data <= 70)%nat ->
   bech_enc m hrp data = Some s -> bech_dec s = Some (hrp, data, m).
+(* DecodeGeneric then Encode/EncodeM with the constant that matched gives the lower-case spelling back *)
+Hypothesis bech_enc_dec : forall s h d m, bech_dec s = Some (h, d, m) ->
+  bech_enc m h d = Some (map to_lower s) /\ syms_ok d.
+(* bech32.ConvertBits: 5 -> 8 without padding accepts only what 8 -> 5 with padding produces *)
+Hypothesis bcb_back : forall c d, syms_ok c -> bcb c 5 8 false = Some d -> bcb d 8 5 true = Some c.
 (* bech32.ConvertBits: 8 -> 5 with padding, then 5 -> 8 without, is the identity *)
 Hypothesis bcb_roundtrip : forall d, exists c, bcb d 8 5 true = Some c /\ syms_ok c /\
   bcb c 5 8 false = Some d /\ (length c <= 2 * length d)%nat.
@@ -296,8 +301,9 @@ Proof.
   assert (FB : from_bech32 s = Ok (n_bech32 n, seg_ver tr, prog)).
   { unfold Addr.from_bech32. rewrite Sh, (last_index_canon _ _ NS).
     destruct (Nat.leb_spec (length (n_bech32 n)) 1) as [Q|_]; [lia|].
-    rewrite firstn_app_exact. rewrite <- Sh, De.
+    rewrite <- Sh, De.
     replace (16 <? n8 (seg_ver tr)) with false by (destruct tr; reflexivity).
+    replace (negb (Bool.eqb (n8 (seg_ver tr) =? 0) (negb tr))) with false by (destruct tr; reflexivity).
     rewrite C3, K1, K2. reflexivity. }
   destruct (prefix_bech n cs Hn) as (N1 & N2 & N3). rewrite <- Sh in N1, N2, N3.
   assert (NW : network_for_address s = Ok n) by (unfold Addr.network_for_address; rewrite N1; reflexivity).
@@ -310,41 +316,59 @@ Qed.
 
 
 (* ------------------------------------------------------------------ *)
-(* FromBech32 ignores which constant matched (suspect v): refutation     *)
+(* the checksum constant is bound to the witness version (fix e7c9f3c)   *)
 (* ------------------------------------------------------------------ *)
-(* FULL STATEMENT (false): forall s, decode_type s = Ok t -> re-encoding what From* returns gives s up to case.
-   Refuted: the same program encoded with the constant of the OTHER version is recognised as the same
-   address type and re-encodes to a different string. *)
-Theorem recognised_reencodes_refuted n tr prog : In n nets -> seg_ok tr prog ->
-  exists s' s, decode_type s' = Ok (seg_type tr prog) /\
-    from_bech32 s' = Ok (n_bech32 n, seg_ver tr, prog) /\
-    to_bech32 (n_bech32 n) (seg_ver tr) prog = Ok s /\ s <> s' /\
-    (exists h d, bech_dec s' = Some (h, d, negb tr) /\ bech_dec s = Some (h, d, tr)).
+Theorem other_constant_rejected n tr prog s' : In n nets -> seg_ok tr prog ->
+  (forall c, bcb prog 8 5 true = Some c -> bech_enc (negb tr) (n_bech32 n) (seg_ver tr :: c) = Some s') ->
+  from_bech32 s' = Err /\ decode_type s' = Err.
 Proof.
-  intros Hn Hp. destruct (hrp_facts n Hn) as (I1 & _ & LO & _ & L1 & _).
+  intros Hn Hp Hs. destruct (hrp_facts n Hn) as (I1 & _ & LO & _ & L1 & _).
   destruct (bcb_roundtrip prog) as (c & C1 & C2 & C3 & C4).
-  assert (Sy : syms_ok (seg_ver tr :: c)) by (constructor; [destruct tr; cbn; lia | exact C2]).
-  destruct (bech_total (negb tr) (n_bech32 n) (seg_ver tr :: c) Sy) as [s' Es'].
-  destruct (bech_total tr (n_bech32 n) (seg_ver tr :: c) Sy) as [s Es].
-  destruct (bech_shape _ _ _ _ Es') as (cs & Sh & NS). rewrite LO in Sh.
+  specialize (Hs c C1).
+  destruct (bech_shape _ _ _ _ Hs) as (cs & Sh & NS). rewrite LO in Sh.
   assert (Len : (length (seg_ver tr :: c) <= 70)%nat).
   { cbn [length]. destruct tr; cbn in Hp; [rewrite Hp in C4 | destruct Hp as [Hp|Hp]; rewrite Hp in C4]; lia. }
-  pose proof (bech_dec_enc _ _ _ _ I1 Len Es') as De'. pose proof (bech_dec_enc _ _ _ _ I1 Len Es) as De.
-  destruct (seg_len_checks tr prog Hp) as (K1 & K2 & K3 & _).
-  assert (FB : from_bech32 s' = Ok (n_bech32 n, seg_ver tr, prog)).
+  pose proof (bech_dec_enc _ _ _ _ I1 Len Hs) as De.
+  assert (FB : from_bech32 s' = Err).
   { unfold Addr.from_bech32. rewrite Sh, (last_index_canon _ _ NS).
     destruct (Nat.leb_spec (length (n_bech32 n)) 1) as [Q|_]; [lia|].
-    rewrite firstn_app_exact. rewrite <- Sh, De'.
+    rewrite <- Sh, De.
     replace (16 <? n8 (seg_ver tr)) with false by (destruct tr; reflexivity).
-    rewrite C3, K1, K2. reflexivity. }
+    replace (negb (Bool.eqb (n8 (seg_ver tr) =? 0) (negb (negb tr)))) with true by (destruct tr; reflexivity).
+    reflexivity. }
+  split; [exact FB|].
   destruct (prefix_bech n cs Hn) as (N1 & N2 & N3). rewrite <- Sh in N1, N2, N3.
-  exists s', s. split; [|split; [exact FB|split; [|split]]].
-  - unfold Addr.decode_type, Addr.network_for_address. rewrite N1, N2, N3. unfold decode_bech32. rewrite FB. exact K3.
-  - unfold Addr.to_bech32. rewrite C1. destruct tr; cbn [seg_ver] in *.
-    + change (n8 x01 =? 0) with false. change (n8 x01 =? 1) with true. cbv iota. rewrite Es. reflexivity.
-    + change (n8 x00 =? 0) with true. cbv iota. rewrite Es. reflexivity.
-  - intros ->. rewrite De in De'. destruct tr; discriminate.
-  - eexists _, _. split; [exact De' | exact De].
+  unfold Addr.decode_type, Addr.network_for_address. rewrite N1, N2, N3. unfold decode_bech32. rewrite FB. reflexivity.
+Qed.
+
+(* whatever FromBech32 accepts with version 0 or 1 re-encodes to its lower-case spelling *)
+Theorem bech32_recognised_reencodes s p v prog : from_bech32 s = Ok (p, v, prog) -> n8 v <= 1 ->
+  to_bech32 p v prog = Ok (map to_lower s).
+Proof.
+  unfold Addr.from_bech32. destruct (last_index sep s) as [one|]; [|discriminate].
+  destruct (one <=? 1)%nat; [discriminate|].
+  destruct (bech_dec s) as [[[h data] m]|] eqn:De; [|discriminate].
+  destruct data as [|v' rest]; [discriminate|].
+  destruct (16 <? n8 v'); [discriminate|].
+  destruct (Bool.eqb (n8 v' =? 0) (negb m)) eqn:Ck; [|discriminate]. cbn [negb].
+  destruct (bcb rest 5 8 false) as [rg|] eqn:Cb; [|discriminate].
+  destruct ((length rg <? 2)%nat || (40 <? length rg)%nat); [discriminate|].
+  destruct ((n8 v' =? 0) && negb (lenb rg 20) && negb (lenb rg 32)); [discriminate|].
+  intro H; inversion H; subst p v prog. intro Hv.
+  destruct (bech_enc_dec _ _ _ _ De) as [En Sy]. inversion Sy as [|x l Hx Sr]; subst.
+  unfold Addr.to_bech32. rewrite (bcb_back _ _ Sr Cb).
+  destruct (N.eqb_spec (n8 v') 0) as [E0|E0].
+  - apply Bool.eqb_prop in Ck. destruct m; [discriminate|]. rewrite En. reflexivity.
+  - apply Bool.eqb_prop in Ck. destruct m; [|discriminate].
+    destruct (N.eqb_spec (n8 v') 1) as [_|E1]; [|lia]. rewrite En. reflexivity.
+Qed.
+
+Lemma decode_bech32_versions s t : decode_bech32 bech_dec bcb s = Ok t ->
+  exists p v prog, from_bech32 s = Ok (p, v, prog) /\ n8 v <= 1.
+Proof.
+  unfold decode_bech32. destruct (from_bech32 s) as [[[p v] prog]| |]; try discriminate.
+  unfold decode_segwit_type. intro H. exists p, v, prog. split; [reflexivity|].
+  destruct (N.eqb_spec (n8 v) 0); [lia|]. destruct (N.eqb_spec (n8 v) 1); [lia | discriminate].
 Qed.
 
 (* ---------- confidential segwit (blech32: the model and theorems of C15) ---------- *)
@@ -398,7 +422,7 @@ Proof.
   assert (FB : from_blech32 s = Ok (n_blech32 n, v, key, prog)).
   { unfold Addr.from_blech32. rewrite Sh, (last_index_canon _ _ NS).
     destruct (Nat.leb_spec (length (n_blech32 n)) 1) as [Q|_]; [lia|].
-    rewrite firstn_app_exact. rewrite <- Sh, De.
+    rewrite <- Sh, De.
     replace (16 <? n8 v) with false by (destruct tr; reflexivity).
     rewrite C3.
     destruct (Nat.ltb_spec (length (key ++ prog)) (2 + 33)); [lia|].
@@ -497,19 +521,57 @@ Qed.
 End Codecs.
 
 (* ------------------------------------------------------------------ *)
-(* upper-case blech32: recognised, but what FromBlech32 returns does    *)
-(* not re-encode (the prefix is copied from the string as spelled)      *)
+(* whatever FromBlech32 accepts (any case) re-encodes to its lower-case  *)
+(* spelling: Decode/Encode of C15 plus the regrouping laws               *)
 (* ------------------------------------------------------------------ *)
-(* FULL STATEMENT (false): from_blech32 s = Ok (p, v, k, pr) -> to_blech32 p v k pr = Ok s' with s' = s up to case *)
-Theorem blech32_upper_reencode_refuted : exists s p v k pr,
-  from_blech32 s = Ok (p, v, k, pr) /\ to_blech32 p v k pr = Err /\
-  (exists s', from_blech32 (map to_lower s) = Ok (map to_lower p, v, k, pr) /\
-              to_blech32 (map to_lower p) v k pr = Ok s' /\ s' = map to_lower s).
+Definition regroup_back_law : Prop :=
+  forall c d, syms_ok c -> convert_bits c 5 8 false = Some d -> convert_bits d 8 5 true = Some c.
+
+Lemma to_blech32_eq p v key program : to_blech32 p v key program =
+  match convert_bits (key ++ program) 8 5 true with
+  | None => Err
+  | Some conv =>
+      match encoding_of_version v with
+      | None => Err
+      | Some enc =>
+          match encode p (v :: conv) enc with
+          | None => Err
+          | Some s =>
+              match from_blech32 s with
+              | Err => Err
+              | Panic => Panic
+              | Ok (_, v', k', p') =>
+                  if beqb v' v && bytes_eqb (k' ++ p') (key ++ program) then Ok s else Err
+              end
+          end
+      end
+  end.
+Proof. reflexivity. Qed.
+
+Theorem blech32_recognised_reencodes s p v k pr : regroup_back_law ->
+  from_blech32 s = Ok (p, v, k, pr) -> to_blech32 p v k pr = Ok (map to_lower s).
 Proof.
-  destruct ex_valid as (cs & TC & _ & _ & _ & _).
-  exists (map to_upper (ex_hrp ++ sep :: cs)). vm_compute in TC. inversion TC; subst cs.
-  do 4 eexists. split; [vm_compute; reflexivity|]. split; [vm_compute; reflexivity|].
-  eexists. split; [vm_compute; reflexivity|]. split; vm_compute; reflexivity.
+  intros RB H. assert (H0 := H). unfold Addr.from_blech32 in H.
+  destruct (last_index sep s) as [one|] eqn:LI; [|discriminate].
+  destruct (one <=? 1)%nat eqn:O1; [discriminate|].
+  destruct (decode s) as [h data| |] eqn:D; try discriminate.
+  destruct data as [|v' rest]; [discriminate|].
+  destruct (16 <? n8 v') eqn:V16; [discriminate|].
+  destruct (convert_bits rest 5 8 false) as [rg|] eqn:Cb; [|discriminate].
+  destruct ((length rg <? 2 + 33)%nat || (40 + 33 <? length rg)%nat) eqn:B1; [discriminate|].
+  destruct ((n8 v' =? 0) && negb (lenb rg 53) && negb (lenb rg 65)) eqn:B2; [discriminate|].
+  assert (E : firstn 33 rg ++ skipn 33 rg = rg) by apply firstn_skipn.
+  assert (FL0 : forall l, decode l = DOk h (v' :: rest) -> last_index sep l = Some one ->
+                from_blech32 l = Ok (h, v', firstn 33 rg, skipn 33 rg)).
+  { intros l Dl Ll. unfold Addr.from_blech32. rewrite Ll, O1, Dl, V16, Cb, B1, B2. reflexivity. }
+  remember (firstn 33 rg) as k0 eqn:Hk. remember (skipn 33 rg) as pr0 eqn:Hpr. clear Hk Hpr H0.
+  injection H as E1 E2 E3 E4. subst p v k pr.
+  destruct (decode_encode s h (v' :: rest) D) as (v2 & r2 & e & Ed & Ev & En). injection Ed as <- <-.
+  pose proof (decode_data_syms s h _ D) as Sy. apply Forall_inv_tail in Sy. rename Sy into Sr.
+  destruct (accepted_case_spellings s h _ D) as [Dl _].
+  pose proof (FL0 (map to_lower s) Dl ltac:(rewrite last_index_lower; exact LI)) as FL.
+  rewrite to_blech32_eq, E, (RB _ _ Sr Cb), Ev, En, FL, beqb_refl, E, bytes_eqb_refl.
+  reflexivity.
 Qed.
 
 (* ------------------------------------------------------------------ *)
@@ -529,7 +591,9 @@ Definition ext_laws (b58enc : bytes -> byte -> bytes) (b58dec : bytes -> option 
   (forall m hrp data, syms_ok data -> exists s, bech_enc m hrp data = Some s) /\
   (forall m hrp data s, In hrp all_hrps -> (length data <= 70)%nat ->
      bech_enc m hrp data = Some s -> bech_dec s = Some (hrp, data, m)) /\
-  (forall d, exists c, bcb d 8 5 true = Some c /\ syms_ok c /\ bcb c 5 8 false = Some d /\ (length c <= 2 * length d)%nat).
+  (forall d, exists c, bcb d 8 5 true = Some c /\ syms_ok c /\ bcb c 5 8 false = Some d /\ (length c <= 2 * length d)%nat) /\
+  (forall s h d m, bech_dec s = Some (h, d, m) -> bech_enc m h d = Some (map to_lower s) /\ syms_ok d) /\
+  (forall c d, syms_ok c -> bcb c 5 8 false = Some d -> bcb d 8 5 true = Some c).
 
 (* the repository's own blech32.ConvertBits: 8 -> 5 padded then 5 -> 8 is the identity *)
 Definition regroup_law : Prop :=
@@ -542,7 +606,7 @@ Variables (b58enc : bytes -> byte -> bytes) (b58dec : bytes -> option (bytes * b
   (bcb : bytes -> N -> N -> bool -> option bytes).
 Hypothesis L : ext_laws b58enc b58dec bech_dec bech_enc bcb.
 
-Ltac laws := destruct L as (L1 & L2 & L3 & L4 & L5 & L6 & L7).
+Ltac laws := destruct L as (L1 & L2 & L3 & L4 & L5 & L6 & L7 & L8 & L9).
 Ltac fin := solve [eassumption].
 
 Theorem base58_roundtrip_l : forall v d, length d = 20%nat ->
@@ -604,12 +668,19 @@ Theorem conf_unconf_segwit_l : regroup_law -> forall n tr key prog, In n nets ->
     Addr.from_confidential b58enc b58dec bech_dec bech_enc bcb c = Ok (u, key, scr).
 Proof. laws. intros R. intros. eapply conf_unconf_segwit; fin. Qed.
 
-Theorem recognised_reencodes_refuted_l : forall n tr prog, In n nets -> seg_ok tr prog ->
-  exists s' s, Addr.decode_type b58dec bech_dec bcb s' = Ok (seg_type tr prog) /\
-    Addr.from_bech32 bech_dec bcb s' = Ok (n_bech32 n, seg_ver tr, prog) /\
-    Addr.to_bech32 bech_enc bcb (n_bech32 n) (seg_ver tr) prog = Ok s /\ s <> s' /\
-    (exists h d, bech_dec s' = Some (h, d, negb tr) /\ bech_dec s = Some (h, d, tr)).
-Proof. laws. intros. eapply recognised_reencodes_refuted; fin. Qed.
+Theorem other_constant_rejected_l : forall n tr prog s', In n nets -> seg_ok tr prog ->
+  (forall c, bcb prog 8 5 true = Some c -> bech_enc (negb tr) (n_bech32 n) (seg_ver tr :: c) = Some s') ->
+  Addr.from_bech32 bech_dec bcb s' = Err /\ Addr.decode_type b58dec bech_dec bcb s' = Err.
+Proof. laws. intros. eapply other_constant_rejected; fin. Qed.
+
+Theorem bech32_recognised_reencodes_l : forall s p v prog,
+  Addr.from_bech32 bech_dec bcb s = Ok (p, v, prog) -> n8 v <= 1 ->
+  Addr.to_bech32 bech_enc bcb p v prog = Ok (map to_lower s).
+Proof. laws. intros. eapply bech32_recognised_reencodes; fin. Qed.
+
+Theorem recognised_bech32_versions_l : forall s t, decode_bech32 bech_dec bcb s = Ok t ->
+  exists p v prog, Addr.from_bech32 bech_dec bcb s = Ok (p, v, prog) /\ n8 v <= 1.
+Proof. laws. intros. eapply decode_bech32_versions; fin. Qed.
 
 End Closed.
 
